@@ -108,6 +108,8 @@ var messages = []string{"", "bad value", "值不对", "值 bad", "x", "字", "a=
 	"100% sure", "不能超过100%", "%d items", "%", "%s%v%[1]d", "50%!",
 	// messages that mention a label word: the explanation starts after the clause's own (first) label
 	"see explain: in the docs", "格式见 说明: 第三章", "请看 explain: 文档", "read the explain:", "x explain: y 说明: z",
+	// full-width look-alikes of the syntax characters are ordinary text
+	"姓名长度需在2～4之间", "数量需＝1", "a｜b only", "，；：",
 	// the message separator inside the message
 	"size must be 1|2|3", "模式只能是 r|w", "a|b", "|", "trailing|"}
 
